@@ -108,6 +108,16 @@ func (e *Env) Deliver() (bool, error) {
 	return true, e.H.VerifProcessBlock(b)
 }
 
+// CatchUp announces the node's current tip and lets the handler process it (what Start()'s
+// catch-up loop achieves for a freshly opened instance).
+func (e *Env) CatchUp() error {
+	if e.Node.Height() == 0 {
+		return nil
+	}
+	e.Queue = nil
+	return e.H.VerifProcessBlock(e.Node.Tip().MsgBlock())
+}
+
 // ServeWorker lets the worker run exactly one suspended section (one db.Update) and waits until
 // the worker is parked again. It reports false if the worker did not ask for a section.
 func (e *Env) ServeWorker(wait time.Duration) (bool, error) {
